@@ -3,6 +3,7 @@
 package bufcheckserverhandle
 
 import (
+	"github.com/bufbuild/buf/private/bufpkg/bufprotosource"
 	"google.golang.org/protobuf/reflect/protoreflect"
 	"google.golang.org/protobuf/types/descriptorpb"
 )
@@ -10,7 +11,12 @@ import (
 func vNondetTypedField() *vField {
 	k := verifNondetInt(1, 18)
 	name := verifNondetString(verifParam("TN"))
-	return &vField{fd: &vFD{kind: protoreflect.Kind(k)}, typ: descriptorpb.FieldDescriptorProto_Type(k), typeName: name, name: "f", number: 1}
+	kind := protoreflect.Kind(k)
+	if k == 11 && verifNondetBool() {
+		// editions: a TYPE_MESSAGE field with features.message_encoding = DELIMITED resolves to GroupKind
+		kind = protoreflect.GroupKind
+	}
+	return &vField{fd: &vFD{kind: kind}, typ: descriptorpb.FieldDescriptorProto_Type(k), typeName: name, name: "f", number: 1}
 }
 
 // VerifLemma_C03A_FieldTypeHierarchy: for every pair of field kinds and type names, WIRE fires => WIRE_JSON
@@ -30,10 +36,139 @@ func VerifLemma_C03A_FieldTypeHierarchy() {
 	verifCover("all three handlers returned")
 	verifAssert(wire.n == 0 || wireJSON.n > 0, "WIRE fires => WIRE_JSON fires")
 	verifAssert(wireJSON.n == 0 || same.n > 0, "WIRE_JSON fires => FIELD_SAME_TYPE fires")
-	if prev.typ == cur.typ && prev.typeName == cur.typeName {
-		verifAssert(same.n == 0 && wire.n == 0 && wireJSON.n == 0, "identical type: nothing reported")
+	pk, ck := prev.fd.kind, cur.fd.kind
+	named := ck == protoreflect.MessageKind || ck == protoreflect.GroupKind || ck == protoreflect.EnumKind
+	renamed := named && prev.typeName != cur.typeName // (enum renames with WIRE/WIRE_JSON need the request: not on these paths)
+	if pk == ck && !renamed {
+		verifAssert(same.n == 0 && wire.n == 0 && wireJSON.n == 0, "identical resolved type: nothing reported")
 	}
-	if prev.typ != cur.typ {
-		verifAssert(same.n > 0, "kind changed => FIELD_SAME_TYPE reports")
+	loc := "type"
+	if named {
+		loc = "typename"
+	}
+	if pk != ck {
+		verifCover("resolved kind changed")
+		verifAssert(same.n == 1 && same.vbHas(loc, cur), "resolved kind changed (incl. message <-> delimited) => FIELD_SAME_TYPE reports once at the type (name)")
+	}
+	if pk == ck && renamed {
+		verifCover("message / group type name changed")
+		verifAssert(same.n == 1 && same.vbHas("typename", cur), "type name changed => FIELD_SAME_TYPE reports at the type name")
+		verifAssert(wire.n == 1 && wireJSON.n == 1, "message / group type name changed => WIRE and WIRE_JSON report")
+	}
+	// documented compatibility groups
+	wantWire := refBrkWireGroup(pk) != refBrkWireGroup(ck) && !(pk == protoreflect.StringKind && ck == protoreflect.BytesKind)
+	wantWJ := refBrkWireJSONGroup(pk) != refBrkWireJSONGroup(ck)
+	if pk != ck {
+		if wantWire {
+			verifAssert(wire.n == 1 && wire.vbHas(loc, cur), "kind changed across WIRE groups => FIELD_WIRE_COMPATIBLE_TYPE reports at the type (name)")
+		} else {
+			verifCover("kind changed inside a WIRE group (or string -> bytes)")
+			verifAssert(wire.n == 0, "kind changed inside a WIRE group (or string -> bytes) => WIRE silent")
+		}
+		if wantWJ {
+			verifAssert(wireJSON.n == 1 && wireJSON.vbHas(loc, cur), "kind changed across WIRE_JSON groups => FIELD_WIRE_JSON_COMPATIBLE_TYPE reports at the type (name)")
+		} else {
+			verifCover("kind changed inside a WIRE_JSON group")
+			verifAssert(wireJSON.n == 0, "kind changed inside a WIRE_JSON group => WIRE_JSON silent")
+		}
+	}
+}
+
+// Documented wire compatibility groups (buf docs, FIELD_WIRE_COMPATIBLE_TYPE): int32/uint32/int64/uint64/bool;
+// sint32/sint64; fixed32/sfixed32; fixed64/sfixed64; everything else alone (string -> bytes is a one-way exception).
+func refBrkWireGroup(k protoreflect.Kind) int {
+	switch k {
+	case protoreflect.Int32Kind, protoreflect.Uint32Kind, protoreflect.Int64Kind, protoreflect.Uint64Kind, protoreflect.BoolKind:
+		return 100
+	case protoreflect.Sint32Kind, protoreflect.Sint64Kind:
+		return 101
+	case protoreflect.Fixed32Kind, protoreflect.Sfixed32Kind:
+		return 102
+	case protoreflect.Fixed64Kind, protoreflect.Sfixed64Kind:
+		return 103
+	}
+	return int(k)
+}
+
+// Documented wire+JSON groups (FIELD_WIRE_JSON_COMPATIBLE_TYPE): int32/uint32; int64/uint64; fixed32/sfixed32;
+// fixed64/sfixed64; everything else alone.
+func refBrkWireJSONGroup(k protoreflect.Kind) int {
+	switch k {
+	case protoreflect.Int32Kind, protoreflect.Uint32Kind:
+		return 100
+	case protoreflect.Int64Kind, protoreflect.Uint64Kind:
+		return 101
+	case protoreflect.Fixed32Kind, protoreflect.Sfixed32Kind:
+		return 102
+	case protoreflect.Fixed64Kind, protoreflect.Sfixed64Kind:
+		return 103
+	}
+	return int(k)
+}
+
+// VerifLemma_C03A_EnumTypeChange: an enum-typed field whose type name changes. FIELD_SAME_TYPE always reports it;
+// FIELD_WIRE(_JSON)_COMPATIBLE_TYPE report it unless the new enum has the same short name and contains every
+// previous value (same name, same number) - the documented "moved enum" allowance. 1..NV values per enum.
+func VerifLemma_C03A_EnumTypeChange() {
+	prevEnum := &vbEnum{name: "E", full: "p.E"}
+	curEnum := &vbEnum{name: "E", full: "p.E"}
+	switch verifNondetChoice(3) {
+	case 1:
+		curEnum.full = "q.E" // moved to another package
+	case 2:
+		curEnum.name, curEnum.full = "F", "p.F" // renamed
+	}
+	mkVals := func(e *vbEnum) ([]string, []int) {
+		n := verifNondetChoice(verifParam("NV")) + 1
+		names, nums := make([]string, n), make([]int, n)
+		for i := 0; i < n; i++ {
+			names[i] = vbNondetLetter()
+			vbDistinctFrom(names[i], names[:i])
+			nums[i] = verifNondetInt(vbTagLo, vbTagHi)
+			e.values = append(e.values, &vbEnumValue{name: names[i], number: nums[i], enum: e})
+		}
+		return names, nums
+	}
+	pNames, pNums := mkVals(prevEnum)
+	cNames, cNums := mkVals(curEnum)
+	req := &vbReq{
+		cur:  []bufprotosource.File{&vFile{path: "a.proto", enums: []bufprotosource.Enum{curEnum}}},
+		prev: []bufprotosource.File{&vFile{path: "a.proto", enums: []bufprotosource.Enum{prevEnum}}},
+	}
+	mk := func(e *vbEnum) *vField {
+		return &vField{fd: &vFD{kind: protoreflect.EnumKind}, typ: descriptorpb.FieldDescriptorProto_TYPE_ENUM,
+			typeName: "." + e.full, name: "f", number: 1}
+	}
+	prev, cur := mk(prevEnum), mk(curEnum)
+	wire, wireJSON, same := &vRW{}, &vRW{}, &vRW{}
+	e1 := handleBreakingFieldWireCompatibleType(wire, req, cur, prev)
+	e2 := handleBreakingFieldWireJSONCompatibleType(wireJSON, req, cur, prev)
+	e3 := handleBreakingFieldSameType(same, req, cur, prev)
+	verifAssert(e1 == nil && e2 == nil && e3 == nil, "enum type handlers return no error")
+	verifCover("enum type handlers returned")
+	if prevEnum.full == curEnum.full {
+		verifAssert(wire.n == 0 && wireJSON.n == 0 && same.n == 0, "same enum type name: nothing reported (value changes are other rules' business)")
+		return
+	}
+	verifAssert(same.n == 1 && same.vbHas("typename", cur), "enum type name changed => FIELD_SAME_TYPE reports at the type name")
+	subset := true
+	for i := 0; i < len(pNames); i++ {
+		found := false
+		for j := 0; j < len(cNames); j++ {
+			if pNames[i] == cNames[j] && pNums[i] == cNums[j] {
+				found = true
+			}
+		}
+		if !found {
+			subset = false
+		}
+	}
+	if prevEnum.name == curEnum.name && subset {
+		verifCover("enum moved with all previous values kept")
+		verifAssert(wire.n == 0 && wireJSON.n == 0, "moved enum that keeps every previous value is wire(/JSON) compatible")
+	} else {
+		verifCover("enum replaced by an incompatible one")
+		verifAssert(wire.n == 1 && wire.vbHas("typename", cur), "incompatible enum change => WIRE reports at the type name")
+		verifAssert(wireJSON.n == 1 && wireJSON.vbHas("typename", cur), "incompatible enum change => WIRE_JSON reports at the type name")
 	}
 }
